@@ -45,13 +45,14 @@ PROPS = {
                                                               "once", "preds_done", "unexpected_panic"], kf1=True)}),
     "C06": dict(sd=True, suites={"sysdata": dict(fields=["reads", "writes", "fetch", "alive", "after", "setup", "setupok", "setup-calls", "exec", "driver-exception"],
                                                  oracles=["declared_equals_borrowed", "conflicting_members_fetched", "released_after_drop", "setup_keeps_existing",
-                                                          "setup_default_value", "setup_idempotent", "setup_composes", "exec_releases", "exec_panic_propagates"])}),
+                                                          "setup_default_value", "setup_idempotent", "setup_composes", "exec_releases", "exec_panic_propagates", "exec_runs_setup"])}),
     "C08": dict(sd=True, suites={"world": dict(fields=["outcome", "probe", "ledger", "end", "driver-exception"],
                                       oracles=["fail_preserves", "none_iff_absent", "borrow_class"]),
                         "meta": dict(fields=["outcome", "driver-exception"], oracles=["iter_borrow_discipline"]),
                         "sysdata": dict(fields=["fetch", "alive", "after", "driver-exception"],
                                         oracles=["conflicting_members_fetched", "released_after_drop", "declared_equals_borrowed"])}),
-    "C09": dict(suites={"world": dict(fields=["outcome", "probe", "ledger", "end", "driver-exception"],
+    "C09": dict(sd=True, suites={"sysdata": dict(fields=["exec", "setup", "setupok", "driver-exception"], oracles=["exec_runs_setup", "exec_releases", "exec_panic_propagates", "setup_keeps_existing"]),
+                        "world": dict(fields=["outcome", "probe", "ledger", "end", "driver-exception"],
                                       oracles=["mismatch_panics", "drop_once", "fail_preserves", "other_slots_untouched", "insert_replaces",
                                                "remove_empties", "entry_never_overwrites", "entry_inserts", "presence_agrees"])}),
     "C10": dict(suites={"plan": dict(fields=LAYOUT + ["maxthr"], oracles=["skip_justified", "max_threads"])}),
